@@ -12,6 +12,8 @@ CONSTANTS
   ZeroLenResets = TRUE
   CheckPktLen = TRUE
   Script <- MC_NoScript
+  FullOnly = FALSE
+  RandomStart = FALSE
   ExportMod = 16
   ExportRem = 1
   ExportSig = TRUE
